@@ -32,12 +32,13 @@ func (s Status) String() string {
 // Verdict is the result of reading a JSON document.
 type Verdict struct {
 	Status Status
-	// MustReject is set for Invalid documents whose defect is one of the
-	// conservative classes in which producing a digest would mean signing
-	// something other than the document shown: a non-object (and non-null)
-	// value for a struct type, a non-array (and non-null) value for an array
-	// type, an element count different from a fixed array dimension, an
-	// integer outside the range of its uint<M>/int<M> type.
+	// MustReject is set for Invalid documents whose defect is the one class C14
+	// names: an integer outside the range of its uint<M>/int<M> type must be
+	// rejected rather than hashed. Shape mismatches (a non-object for a struct,
+	// a non-array for an array, a wrong element count for a fixed dimension)
+	// used to be in this set as well; C14 only demands "a digest or an error"
+	// for them, so a lenient library is not a violation and they are plain
+	// Invalid (either outcome, no panic).
 	MustReject bool
 	Notes      []string // every condition met, "invalid:<class>" / "unspecified:<class>"
 	Reason     string   // first note with detail
@@ -364,11 +365,11 @@ func (r *reader) readDims(base string, dims []int, n *JNode, path string, depth 
 			r.inval("array-absent", false, "%s: no value for an array type", path)
 			return nil
 		case n.Kind != 'a':
-			r.inval("array-not-array", true, "%s: %s given for an array type", path, kindName(n))
+			r.inval("array-not-array", false, "%s: %s given for an array type", path, kindName(n))
 			return nil
 		}
 		if outer >= 0 && len(n.Vals) != outer {
-			r.inval("fixed-length", true, "%s: %d elements for a fixed array of %d", path, len(n.Vals), outer)
+			r.inval("fixed-length", false, "%s: %d elements for a fixed array of %d", path, len(n.Vals), outer)
 		}
 		arr := make([]Value, len(n.Vals))
 		for i, e := range n.Vals {
@@ -381,7 +382,7 @@ func (r *reader) readDims(base string, dims []int, n *JNode, path string, depth 
 		case n == nil || n.Kind == 'n':
 			return nil // absent reference
 		case n.Kind != 'o':
-			r.inval("struct-not-object", true, "%s: %s given for struct type %s", path, kindName(n), base)
+			r.inval("struct-not-object", false, "%s: %s given for struct type %s", path, kindName(n), base)
 			return nil
 		}
 		return r.readStruct(base, n, path, depth)
